@@ -270,14 +270,16 @@ func init() {
 	// ---------------------------------------------------------------- C23
 	register(&checkSpec{
 		ID:   "C23",
-		Rule: "import blocks of up to K specs: name (none a _ .), path \"pa\"/\"pb\"/\"pc\" (equal / ordered / duplicate paths all occur), trailing comment and group break chosen by symbolic selectors (the engine forks over them); the real format.Source (parser, ast.SortImports, sortSpecs, collapse, printer, tabwriter) runs on the text, the output is re-parsed and the (name,path) multisets and per-group order are compared",
+		Rule: "import blocks of up to K specs: name (none a _ .), path \"pa\"/\"pb\"/\"pc\" (equal / ordered / duplicate paths all occur), trailing comment and group break chosen by symbolic selectors (the engine forks over them), optionally (LEAD) next to a single-line import declaration in front of or behind the block, or in an XGo script without a package clause; the real format.Source (parser, ast.SortImports, sortSpecs, collapse, printer, tabwriter) runs on the text, the output is re-parsed and the (name,path) multisets and per-group order are compared",
 		Assumptions: []string{
 			"bound: one parenthesized import declaration of at most K specs over 4 names x 3 paths x comment x group break; comments only as trailing line comments",
 			"sort.Slice is modelled by an insertion sort that calls the real less closure (reflectlite swapper is not executable)",
 		},
 		Harnesses: []harnessSpec{
 			{Name: "VxC23", Pkg: "github.com/goplus/xgo/format", Files: []string{"c23/c23.go"},
-				Quick: map[string]int{"K": 3}, Thorough: map[string]int{"K": 4}, MaxSteps: 50_000_000},
+				Quick: map[string]int{"K": 3, "LEAD": 0}, Thorough: map[string]int{"K": 4, "LEAD": 0}, MaxSteps: 50_000_000},
+			{Name: "VxC23", Pkg: "github.com/goplus/xgo/format", Files: []string{"c23/c23.go"},
+				Quick: map[string]int{"K": 2, "LEAD": 3}, Thorough: map[string]int{"K": 3, "LEAD": 3}, MaxSteps: 50_000_000},
 		},
 	})
 
@@ -425,7 +427,7 @@ func init() {
 	register(&checkSpec{
 		ID:    "C03",
 		Level: "translation_validation",
-		Rule:  "programs = the 13 templates of harness/tv/c03/errwrap.xgo (expr!, expr?, expr?:d as assignment, two- and three-value assignment, statement, argument, nested; enclosing functions with 1..3 results), compiled by the compiler of the current tree; inputs = callee values, default value and error/non-error flags as SMT variables; the emitted Go is executed symbolically (with the real github.com/qiniu/x/errors frame wrapping) and checked against the documented behaviour, including the instrumented evaluation trace",
+		Rule:  "programs = the 16 templates of harness/tv/c03/errwrap.xgo (command style f! args and f? args; expr!, expr?, expr?:d as assignment, two- and three-value assignment, statement, argument, nested; enclosing functions with 1..3 results), compiled by the compiler of the current tree; inputs = callee values, default value and error/non-error flags as SMT variables; the emitted Go is executed symbolically (with the real github.com/qiniu/x/errors frame wrapping) and checked against the documented behaviour, including the instrumented evaluation trace",
 		Assumptions: []string{
 			"translation validation of the listed templates, not of every program",
 			"'panics with that error (wrapped with its source frame)' is checked as errors.Is(panic value, callee error); errors.Is is the engine's model (identity, Is method, Unwrap chain)",
@@ -435,7 +437,7 @@ func init() {
 		Harnesses: []harnessSpec{
 			{Name: "VxC03", ExtDir: tvDir("C03"), Quick: map[string]int{}, Variants: func() []map[string]int {
 				var v []map[string]int
-				for fn := 0; fn <= 12; fn++ {
+				for fn := 0; fn <= 13; fn++ {
 					v = append(v, map[string]int{"FN": fn})
 				}
 				return v
@@ -447,7 +449,7 @@ func init() {
 	register(&checkSpec{
 		ID:    "C05",
 		Level: "translation_validation",
-		Rule:  "programs = the 10 templates of harness/tv/c05/interp.xgo (text, $$, ${int}, ${string}, ${error}, ${int64}, ${arithmetic}, ${call} in several orders), compiled by the compiler of the current tree; inputs = integers in [-R,R], strings of <= L symbolic bytes, an error value, as SMT variables; the emitted Go (real strconv and qiniu/x/stringutil.Concat) is executed symbolically and compared with explicit concatenation and with the evaluation trace",
+		Rule:  "programs = the 14 templates of harness/tv/c05/interp.xgo (blank-only text pieces between, before and after interpolations, around $$ and across lines of a raw string; text, $$, ${int}, ${string}, ${error}, ${int64}, ${arithmetic}, ${call} in several orders), compiled by the compiler of the current tree; inputs = integers in [-R,R], strings of <= L symbolic bytes, an error value, as SMT variables; the emitted Go (real strconv and qiniu/x/stringutil.Concat) is executed symbolically and compared with explicit concatenation and with the evaluation trace",
 		Assumptions: []string{
 			"translation validation of the listed templates, not of every literal; floats are left out (no floating point in the engine); bool and unsigned operands are rejected by the compiler and not part of the templates",
 			"bound: |ints| <= R (decimal rendering forks on the digit count), strings of <= L bytes",
@@ -457,7 +459,7 @@ func init() {
 		Harnesses: []harnessSpec{
 			{Name: "VxC05", ExtDir: tvDir("C05"), Quick: map[string]int{"R": 1200, "L": 2}, Thorough: map[string]int{"R": 100000, "L": 3}, Variants: func() []map[string]int {
 				var v []map[string]int
-				for fn := 0; fn <= 9; fn++ {
+				for fn := 0; fn <= 10; fn++ {
 					m := map[string]int{"FN": fn}
 					if fn == 6 {
 						m["R"] = 40 // two independent integers
@@ -476,7 +478,7 @@ func init() {
 	register(&checkSpec{
 		ID:    "C02",
 		Level: "translation_validation",
-		Rule:  "programs = the 20 templates of harness/tv/c02/coll.xgo (list and map literals, xs <- v / v, w / ys..., for-in with index and with filter, list/map comprehensions with filter and with two and three (independent and dependent) for-phrases, existence and selection comprehensions with 1 and 2 results, command-style call, trailing lambda), compiled by the compiler of the current tree; inputs = slice contents (length <= L, elements in [-9,9]) and scalars as SMT variables; results and the instrumented evaluation trace of the emitted Go are compared with the explicit Go expansion",
+		Rule:  "programs = the 23 templates of harness/tv/c02/coll.xgo (comprehension filters with an init statement that is an increment, a call or a compound assignment; list and map literals, xs <- v / v, w / ys..., for-in with index and with filter, list/map comprehensions with filter and with two and three (independent and dependent) for-phrases, existence and selection comprehensions with 1 and 2 results, command-style call, trailing lambda), compiled by the compiler of the current tree; inputs = slice contents (length <= L, elements in [-9,9]) and scalars as SMT variables; results and the instrumented evaluation trace of the emitted Go are compared with the explicit Go expansion",
 		Assumptions: []string{
 			"translation validation of the listed templates, not of every program; element type int only (maps compared by lookup, not by iteration order)",
 			"bound: slices of at most L elements",
@@ -486,7 +488,7 @@ func init() {
 		Harnesses: []harnessSpec{
 			{Name: "VxC02", ExtDir: tvDir("C02"), Quick: map[string]int{"L": 2}, Thorough: map[string]int{"L": 3}, Variants: func() []map[string]int {
 				var v []map[string]int
-				for fn := 0; fn <= 19; fn++ {
+				for fn := 0; fn <= 20; fn++ {
 					v = append(v, map[string]int{"FN": fn})
 				}
 				return v
@@ -558,7 +560,7 @@ func init() {
 	register(&checkSpec{
 		ID:    "C11",
 		Level: "translation_validation",
-		Rule:  "programs = the class files harness/tv/c11/cls/Counter.gox (var block with int, string, slice and map fields; six methods with parameters, results, field reads/writes, this.Method and bare method calls) and Gauge.gox (import, const and type declarations before the var block; named-type, array and self-pointer fields; package function call) plus five driver functions in main.xgo, compiled as one package by the compiler of the current tree; inputs = method arguments and initial field values as SMT variables; compared with the explicit struct + pointer-receiver methods; the exact field list and method set are checked statically when the generated package is type-checked",
+		Rule:  "programs = the class files harness/tv/c11/cls/Counter.gox (var block with int, string, slice and map fields; six methods with parameters, results, field reads/writes, this.Method and bare method calls) Stats.gox (fields and a method named like predeclared identifiers - min, max, len, cap, print - used bare) and Gauge.gox (import, const and type declarations before the var block; named-type, array and self-pointer fields; package function call) plus five driver functions in main.xgo, compiled as one package by the compiler of the current tree; inputs = method arguments and initial field values as SMT variables; compared with the explicit struct + pointer-receiver methods; the exact field list and method set are checked statically when the generated package is type-checked",
 		Assumptions: []string{
 			"translation validation of this class, not of every class; field types int, string, []int, map[int]bool",
 			"'exactly those fields and methods': unkeyed composite literal and interface satisfaction in the generated package (go/types at load time), not a reflective enumeration: extra methods would go unnoticed",
@@ -566,7 +568,7 @@ func init() {
 		Prepare: func(tier string) error { _, err := prepareTV("C11"); return err },
 		Extra:   nil, // programs are counted from the emitted Go (tvCountPrograms) by the driver
 		Harnesses: []harnessSpec{
-			{Name: "VxC11", ExtDir: tvDir("C11"), Quick: map[string]int{}, Variants: []map[string]int{{"FN": 0}, {"FN": 1}, {"FN": 2}, {"FN": 3}, {"FN": 4}, {"FN": 5}}, MaxSteps: 500_000},
+			{Name: "VxC11", ExtDir: tvDir("C11"), Quick: map[string]int{}, Variants: []map[string]int{{"FN": 0}, {"FN": 1}, {"FN": 2}, {"FN": 3}, {"FN": 4}, {"FN": 5}, {"FN": 6}}, MaxSteps: 500_000},
 		},
 	})
 
